@@ -169,7 +169,7 @@ def load_known(path="/verif/known_findings.jsonl"):
     return out
 
 
-_PRED_ENV = {"abs": abs, "AND": core.AND, "OR": core.OR, "NOT": core.NOT, "True": True, "False": False}
+_PRED_ENV = {"abs": abs, "len": len, "set": set, "min": min, "max": max, "any": any, "all": all, "str": str, "int": int, "AND": core.AND, "OR": core.OR, "NOT": core.NOT, "True": True, "False": False}
 
 
 def known_pred(entry, inputs, params):
